@@ -405,6 +405,24 @@ func (a *ioAnalysis) swallowPath(e ssa.Value, start *ssa.BasicBlock, ifBlk *ssa.
 				other := 1 - eofEdge
 				return walk(b.Succs[other])
 			}
+			// a boolean that can only be true when e is an EOF sentinel (the comparison was
+			// stored in a variable, possibly as the last operand of an && chain)
+			cv := ifi.Cond
+			neg := false
+			for {
+				if u, ok := cv.(*ssa.UnOp); ok && u.Op == token.NOT {
+					cv, neg = u.X, !neg
+					continue
+				}
+				break
+			}
+			if eofImplied(cv, e, 0) {
+				flagEdge := 0
+				if neg {
+					flagEdge = 1
+				}
+				return walk(b.Succs[1-flagEdge])
+			}
 		}
 		for _, s := range b.Succs {
 			if !start.Dominates(s) && s != start {
@@ -930,4 +948,30 @@ func (c *Ctx) useBeforeCheck(a *ioAnalysis) {
 func isErrorType(t types.Type) bool {
 	n, ok := t.(*types.Named)
 	return ok && n.Obj().Pkg() == nil && n.Obj().Name() == "error"
+}
+
+// eofImplied: the boolean v can be true only if e equals an EOF sentinel.
+func eofImplied(v, e ssa.Value, depth int) bool {
+	if depth > 6 {
+		return false
+	}
+	switch x := v.(type) {
+	case *ssa.BinOp:
+		if x.Op == token.EQL && (origin(x.X) == e || x.X == e || origin(x.Y) == e || x.Y == e) && (isEOFGlobal(x.X) || isEOFGlobal(x.Y)) {
+			return true
+		}
+	case *ssa.Phi:
+		any := false
+		for _, ed := range x.Edges {
+			if k, ok := ed.(*ssa.Const); ok && k.Value != nil && k.Value.String() == "false" {
+				continue
+			}
+			if !eofImplied(ed, e, depth+1) {
+				return false
+			}
+			any = true
+		}
+		return any
+	}
+	return false
 }
